@@ -75,6 +75,8 @@ func scTrapSubCancel(w *World, a Args, rng *rand.Rand) error {
 	ctx, cancel := context.WithCancel(context.Background())
 	defer cancel()
 	w.Plan(3, &Plan{NoClose: true, WaitCtx: true, NoCloseMs: 1500})
+	w.ArmCause() // the handler's patience runs from the moment the link flows again, not from the end of its stream
+	defer w.MarkCause()
 	d := make(chan struct{})
 	go func() {
 		ch, out := c.Subscribe(ctx, 3, 2, "")
@@ -106,6 +108,7 @@ func scTrapSubCancel(w *World, a Args, rng *rand.Rand) error {
 	time.Sleep(5 * time.Millisecond)
 	w.Rec.OpenAll() // the executor goes on: the response announcing the channel is processed now
 	time.Sleep(300 * time.Millisecond)
+	w.MarkCause()
 	pc.Stall(C2S, false) // the link flows again: whatever is queued gets written
 	waitCh(bigDone, patience(5*time.Second))
 	waitCh(d, patience(2*time.Second))
